@@ -1,5 +1,6 @@
 import MokapotVerif.Lemmas.Picked
 import MokapotVerif.Lemmas.PickedStrip
+import MokapotVerif.Lemmas.PickedMatch
 /-!
 # C15 — Picked-protein: one entry per target/decoy protein pair, won by its best peptide
 
@@ -102,6 +103,31 @@ theorem C15_retained_iff (P : Proteins) (dm : List (List Char × List Char)) (ro
         groupOf P (decoyMap P dm) e.stripped = some e.group := by
   rw [(candidates_ok hR).1]
   exact mem_retained_annotate_iff P _ rows e
+
+/-- **notation_irrelevant_for_mapping**: two candidate rows whose peptides are notations of the same
+residue sequence (whatever their modifications, lower-case markers and flanking residues) belong to
+the same protein group, hence to the same target/decoy pair — they compete for one entry. -/
+theorem C15_notation_irrelevant_for_mapping (P : Proteins) (dm : List (List Char × List Char))
+    (rows : List (Row α)) (R : List (Entry α)) (hR : candidates P dm rows = .ok R)
+    (e1 e2 : Entry α) (h1 : e1 ∈ R) (h2 : e2 ∈ R) (i j : Nat)
+    (fl fl' : Option (List Char × List Char)) (toks toks' : List Tok)
+    (hi : (rows.map (fun r => r.peptide))[i]? = some (renderPeptide fl toks))
+    (hj : (rows.map (fun r => r.peptide))[j]? = some (renderPeptide fl' toks'))
+    (hs1 : (stripCol (rows.map (fun r => r.peptide)))[i]? = some e1.stripped)
+    (hs2 : (stripCol (rows.map (fun r => r.peptide)))[j]? = some e2.stripped)
+    (hwf : ∀ t ∈ toks, t.wf) (hwf' : ∀ t ∈ toks', t.wf) (hfl : flanksOk fl) (hfl' : flanksOk fl')
+    (hres : ∃ c, Tok.res c ∈ toks) (hres' : ∃ c, Tok.res c ∈ toks')
+    (hsame : toks.flatMap Tok.residues = toks'.flatMap Tok.residues) :
+    e1.stripped = e2.stripped ∧ e1.group = e2.group ∧ e1.key P = e2.key P := by
+  have hst : e1.stripped = e2.stripped := by
+    have := C15_strip_ignores_mods_and_flanks _ i j fl fl' toks toks' hi hj hwf hwf' hfl hfl' hres hres' hsame
+    rw [hs1, hs2] at this
+    exact Option.some.inj this
+  obtain ⟨_, _, _, _, _, _, _, hg1⟩ := (C15_retained_iff P dm rows R hR e1).mp h1
+  obtain ⟨_, _, _, _, _, _, _, hg2⟩ := (C15_retained_iff P dm rows R hR e2).mp h2
+  rw [hst, hg2] at hg1
+  have hg : e1.group = e2.group := (Option.some.inj hg1).symm
+  exact ⟨hst, hg, by unfold Entry.key; rw [hg]⟩
 
 /-- where the reported group comes from: the unique-peptide map of the FASTA;
 only with a target-only FASTA, and only for a sequence that is *not* a unique
@@ -241,6 +267,214 @@ theorem C15_no_error_when_all_mapped (P : Proteins) (dm : List (List Char × Lis
   obtain ⟨h2, h3⟩ := no_error_of_no_bad P _ hbad
   exact candidates_of_ok P dm rows hk h2 h3 hne
 
+/-! ## 7. target-only FASTA: the pairing `group_without_decoys` obtains from `match_decoy`
+
+`shuffled` is the list of unique target peptides (keys of the peptide map) in the order the
+seeded shuffle left them — universally quantified, so the statements hold for every seed. -/
+
+/-- **match_decoy_sound**: every pair `(decoy, target)` of the drawn pairing consists of a
+decoy sequence that was offered, a target peptide that was offered, and both have the same
+composition key. -/
+theorem C15_match_decoy_sound (shuffled decoys : List Str) :
+    ∀ dt ∈ matchDecoy shuffled decoys,
+      dt.1 ∈ decoys ∧ dt.2 ∈ shuffled ∧ targetComp dt.2 = decoyComp dt.1 :=
+  (matchDecoy_inv shuffled decoys).sound
+
+/-- the composition key is the residue multiset: for an upper-case decoy sequence `d` (what
+`strip_peptides` returns), a target peptide `t` has the key of `d` iff `t` is an anagram of `d`. -/
+theorem C15_same_key_iff_same_residues (d t : Str) (hd : ∀ c ∈ d, c.isUpper = true) :
+    targetComp t = decoyComp d ↔ t.Perm d := by
+  rw [decoyComp_upper d hd]
+  exact targetComp_eq_iff_perm t d
+
+/-- **match_decoy_injective**: "a *unique* random target": no decoy sequence occurs twice in the
+pairing, and — the target peptides being distinct dict keys — no target peptide is given to two
+decoy sequences. -/
+theorem C15_match_decoy_injective (shuffled decoys : List Str) (hnd : shuffled.Nodup) :
+    ((matchDecoy shuffled decoys).map Prod.fst).Nodup ∧ ((matchDecoy shuffled decoys).map Prod.snd).Nodup :=
+  ⟨(matchDecoy_inv shuffled decoys).keys, matchDecoy_vals_nodup shuffled decoys hnd⟩
+
+/-- **match_decoy_complete**: with distinct decoy sequences (`.unique()`), a decoy sequence stays
+without a partner only if every target peptide of its composition has been given to another
+decoy sequence. -/
+theorem C15_match_decoy_complete (shuffled decoys : List Str) (hnd : decoys.Nodup) :
+    ∀ d ∈ decoys, d ∉ (matchDecoy shuffled decoys).map Prod.fst →
+      ∀ t ∈ shuffled, targetComp t = decoyComp d → t ∈ (matchDecoy shuffled decoys).map Prod.snd := by
+  intro d hd hnk t ht hc
+  have h := matchDecoy_invC shuffled decoys hnd
+  rcases h.cover t ht with hv | hpool
+  · exact hv
+  · exact absurd hc (h.exhausted d hd hnk t hpool)
+
+/-- the decoy sequences `group_without_decoys` offers to `match_decoy` are exactly the stripped
+sequences of the non-target rows, each once. -/
+theorem C15_decoy_seqs (rows : List (Row α)) :
+    (decoySeqs rows).Nodup ∧
+    ∀ d, d ∈ decoySeqs rows ↔ ∃ (i : Nat) (r : Row α), rows[i]? = some r ∧ r.target = false ∧
+      (stripCol (rows.map (fun r => r.peptide)))[i]? = some d := by
+  refine ⟨uniqueFirst_nodup _, fun d => ?_⟩
+  unfold decoySeqs
+  rw [mem_uniqueFirst]
+  simp only [List.mem_map, List.mem_filter, Bool.not_eq_eq_eq_not, Bool.not_true]
+  constructor
+  · rintro ⟨rs, ⟨hmem, htgt⟩, rfl⟩
+    obtain ⟨i, hi, hget⟩ := List.mem_iff_getElem.mp hmem
+    have h1 : rows[i]? = some rs.1 := by
+      rw [List.getElem_zip] at hget
+      have hlt : i < rows.length := by simp at hi; omega
+      rw [List.getElem?_eq_getElem hlt]
+      exact congrArg some (congrArg Prod.fst hget)
+    have h2 : (stripCol (rows.map (fun r => r.peptide)))[i]? = some rs.2 := by
+      rw [List.getElem_zip] at hget
+      have hlt : i < (stripCol (rows.map (fun r => r.peptide))).length := by simp at hi; omega
+      rw [List.getElem?_eq_getElem hlt]
+      exact congrArg some (congrArg Prod.snd hget)
+    exact ⟨i, rs.1, h1, htgt, h2⟩
+  · rintro ⟨i, r, hr, htgt, hs⟩
+    refine ⟨(r, d), ⟨?_, htgt⟩, rfl⟩
+    obtain ⟨h1, e1⟩ := List.getElem?_eq_some_iff.mp hr
+    obtain ⟨h2, e2⟩ := List.getElem?_eq_some_iff.mp hs
+    have hz : i < (rows.zip (stripCol (rows.map (fun r => r.peptide)))).length := by
+      simp only [List.length_zip]; omega
+    have : (rows.zip (stripCol (rows.map (fun r => r.peptide))))[i]'hz = (r, d) := by
+      rw [List.getElem_zip, e1, e2]
+    rw [← this]
+    exact List.getElem_mem hz
+
+/-- **pairing_independent_of_key_order**: the targets offered to the seeded shuffle are the keys of the
+unique-peptide map in sorted order — two `Proteins` objects whose maps hold the same keys in a different
+(hash-dependent) order offer the same list, so the same seed draws the same pairing. -/
+theorem C15_pairing_independent_of_key_order (P P' : Proteins)
+    (h : (P.peptideMap.map Prod.fst).Perm (P'.peptideMap.map Prod.fst)) :
+    pairingTargets P = pairingTargets P' ∧ (pairingTargets P).Perm (P.peptideMap.map Prod.fst) := by
+  refine ⟨?_, sortBy_perm _ _⟩
+  unfold pairingTargets
+  apply List.Perm.eq_of_pairwise (le := fun a b => strLe a b = true)
+  · intro a b _ _ h1 h2; exact strLe_antisymm a b h1 h2
+  · exact sortBy_pairwise strLe strLe_total strLe_trans _
+  · exact sortBy_pairwise strLe strLe_total strLe_trans _
+  · exact ((sortBy_perm strLe _).trans h).trans (sortBy_perm strLe _).symm
+
+/-- **pairing_never_key_error**: `proteins.peptide_map[target_peptide]` cannot raise: the partner is
+always a key of the peptide map. -/
+theorem C15_pairing_never_key_error (P : Proteins) (shuffled : List Str) (rows : List (Row α))
+    (hperm : shuffled.Perm (P.peptideMap.map Prod.fst)) :
+    pairingKeyError P (pairing shuffled rows) = false := by
+  unfold pairingKeyError
+  rw [Bool.and_eq_false_iff]
+  right
+  rw [List.any_eq_false]
+  intro dt hdt
+  have h := (C15_match_decoy_sound shuffled (decoySeqs rows) dt hdt).2.1
+  have := lookup_isSome_of_mem_keys P.peptideMap dt.2 (hperm.subset h)
+  simp [this]
+
+/-- **target_only_counterpart**: with a target-only FASTA, a candidate row whose sequence is not a
+unique target peptide belongs to the mirrored (prefixed) group of a unique target peptide `t` with the
+same composition key, and no other decoy sequence of the table is mirrored through the same `t` —
+for every seed. -/
+theorem C15_target_only_counterpart (P : Proteins) (shuffled : List Str) (rows : List (Row α))
+    (R : List (Entry α)) (hperm : shuffled.Perm (P.peptideMap.map Prod.fst))
+    (hkeys : (P.peptideMap.map Prod.fst).Nodup)
+    (hR : candidates P (pairing shuffled rows) rows = .ok R) :
+    ∀ e ∈ R, P.peptideMap.lookup e.stripped = some e.group ∨
+      (P.hasDecoys = false ∧ P.peptideMap.lookup e.stripped = none ∧
+        ∃ t gt, (e.stripped, t) ∈ pairing shuffled rows ∧ P.peptideMap.lookup t = some gt ∧
+          targetComp t = decoyComp e.stripped ∧ e.group = prefixGroup P.decoyPrefix gt ∧
+          ∀ s', (s', t) ∈ pairing shuffled rows → s' = e.stripped) := by
+  intro e he
+  rcases C15_group_origin P (pairing shuffled rows) rows R hR e he with h | ⟨hd, hn, t, gt, hmem, hgt, hg⟩
+  · exact Or.inl h
+  · refine Or.inr ⟨hd, hn, t, gt, hmem, hgt, ?_, hg, ?_⟩
+    · exact (C15_match_decoy_sound shuffled (decoySeqs rows) _ hmem).2.2
+    · intro s' hs'
+      have hnd := (C15_match_decoy_injective shuffled (decoySeqs rows) (hperm.nodup_iff.mpr hkeys)).2
+      exact pair_fst_eq_of_snd_nodup hnd hs' hmem
+
+/-- a decoy sequence of the table is left without a group only when all unique target peptides of
+its composition are taken by other decoy sequences of the table. -/
+theorem C15_pairing_complete (shuffled : List Str) (rows : List (Row α)) :
+    ∀ d ∈ decoySeqs rows, d ∉ (pairing shuffled rows).map Prod.fst →
+      ∀ t ∈ shuffled, targetComp t = decoyComp d → t ∈ (pairing shuffled rows).map Prod.snd :=
+  C15_match_decoy_complete shuffled (decoySeqs rows) (C15_decoy_seqs rows).1
+
+/-- the executable model with the pairing computed from the draw meets the specification over the
+candidates that pairing yields. -/
+theorem C15_pickedFull_meets_spec (le : α → α → Bool) (hle : TotalPre le) (P : Proteins)
+    (shuffled : List Str) (rows : List (Row α)) (R out : List (Entry α))
+    (hR : candidates P (pairing shuffled rows) rows = .ok R) (hout : pickedFull le P shuffled rows = .ok out) :
+    SpecEntries le P R out :=
+  C15_picked_meets_spec le hle P (pairing shuffled rows) rows R out hR hout
+
+/-! ## 8. the protein level of `assign_confidence`: lower-is-better scores and the two result files -/
+
+/-- **lower_is_better**: with `descs=[False]` the scores are negated first; every entry then is a
+row of the table reported with its *negated* score, and no retained row of the same pair has a
+lower original score. -/
+theorem C15_lower_is_better (le : α → α → Bool) (hle : TotalPre le) (neg : α → α)
+    (hneg : ∀ a b, le (neg a) (neg b) = le b a) (P : Proteins)
+    (dm : List (List Char × List Char)) (rows : List (Row α)) (R sorted : List (Entry α))
+    (hR : candidates P dm (orient neg false rows) = .ok R) (hperm : sorted.Perm R)
+    (hs : KeySorted le P sorted) :
+    ∀ e ∈ pickedOf P sorted,
+      ∃ (i : Nat) (r : Row α), rows[i]? = some r ∧
+        (stripCol (rows.map (fun r => r.peptide)))[i]? = some e.stripped ∧
+        e.peptide = r.peptide ∧ e.score = neg r.score ∧ e.target = r.target ∧
+        groupOf P (decoyMap P dm) e.stripped = some e.group ∧
+        ∀ r2 ∈ R, r2.key P = e.key P → ∀ raw2, r2.score = neg raw2 → le r.score raw2 = true := by
+  intro e he
+  obtain ⟨⟨i, r', hr', hst, hp, hsc, htg, hg⟩, hmax⟩ :=
+    C15_entry_is_best_peptide le hle P dm (orient neg false rows) R sorted hR hperm hs e he
+  have hor : orient neg false rows = rows.map (fun r => (⟨r.target, r.peptide, neg r.score⟩ : Row α)) := by
+    simp [orient]
+  rw [hor] at hr' hst
+  rw [List.getElem?_map] at hr'
+  simp only [List.map_map] at hst
+  cases hri : rows[i]? with
+  | none => rw [hri] at hr'; simp at hr'
+  | some r =>
+    rw [hri] at hr'
+    simp only [Option.map_some, Option.some.injEq] at hr'
+    subst hr'
+    refine ⟨i, r, hri, ?_, hp, hsc, htg, hg, ?_⟩
+    · exact hst
+    · intro r2 hr2 hk raw2 hraw
+      have := hmax r2 hr2 hk
+      rw [hraw, hsc, hneg] at this
+      exact this
+
+/-- **protein_files**: `targets.proteins` holds exactly the target entries and `decoys.proteins`
+(written only with `decoys=True`) exactly the decoy entries, in the order of the level table, each
+with the C01 q-value computed over *all* entries — so leaving the decoy file out (`decoys=False`)
+changes nothing in `targets.proteins`. -/
+theorem C15_protein_files (le : α → α → Bool) (hle : TotalPre le)
+    (entries arr : List (Entry α)) (hperm : arr.Perm entries) (decoys : Bool) :
+    (proteinFiles (tdc le) decoys arr).1
+      = (arr.filter (fun e => e.target)).map (fun e => (e, qSpec le (entryLabels entries) e.score)) ∧
+    (proteinFiles (tdc le) decoys arr).2
+      = (if decoys then some ((arr.filter (fun e => !e.target)).map
+          (fun e => (e, qSpec le (entryLabels entries) e.score))) else none) ∧
+    (proteinFiles (tdc le) false arr).1 = (proteinFiles (tdc le) true arr).1 := by
+  unfold proteinFiles
+  rw [C15_protein_qvalues_are_C01 le hle entries arr hperm]
+  refine ⟨?_, ?_, rfl⟩
+  · rw [List.filter_map]; rfl
+  · cases decoys
+    · rfl
+    · simp only [if_true]; rw [List.filter_map]; rfl
+
+/-- every entry is written to exactly one of the two files (`decoys=True`), and a level table in
+descending score order gives two files in descending score order. -/
+theorem C15_protein_files_partition (le : α → α → Bool) (qv : List (α × Bool) → List Rat)
+    (arr : List (Entry α)) :
+    ((proteinFiles qv true arr).1 ++ ((proteinFiles qv true arr).2.getD [])).Perm (proteinLevel qv arr) ∧
+    ((proteinLevel qv arr).Pairwise (fun a b => le b.1.score a.1.score = true) →
+      (proteinFiles qv true arr).1.Pairwise (fun a b => le b.1.score a.1.score = true) ∧
+      ((proteinFiles qv true arr).2.getD []).Pairwise (fun a b => le b.1.score a.1.score = true)) := by
+  unfold proteinFiles
+  simp only [if_true, Option.getD_some]
+  exact ⟨List.filter_append_perm _ _, fun h => ⟨h.filter _, h.filter _⟩⟩
+
 /-! ## Non-vacuity and evaluation tests -/
 
 def leQ (a b : Rat) : Bool := decide (a ≤ b)
@@ -288,6 +522,59 @@ def exRows : List (Row Rat) :=
 -- exceptions
 #guard (candidates exP [] ([⟨true, "XXK".toList, 1⟩] : List (Row Rat))).toOption.isNone
 #guard (candidates exP [] ([] : List (Row Rat))).toOption.isNone
+
+/-! ### non-vacuity of sections 7 and 8 -/
+
+/-- a target-only database: P1 {AAK, CDK}, group "P2, P3" {BBK}; CCK shared -/
+def exPT : Proteins :=
+  { hasDecoys := false, decoyPrefix := "decoy_".toList,
+    peptideMap := [("AAK".toList, "P1".toList), ("BBK".toList, "P2, P3".toList), ("CDK".toList, "P1".toList)],
+    shared := ["CCK".toList],
+    proteinMap := [("P1".toList, "decoy_P1".toList), ("P2".toList, "decoy_P2".toList),
+                   ("P3".toList, "decoy_P3".toList)] }
+
+/-- the keys as one seeded shuffle may leave them -/
+def exShuffled : List Str := ["CDK".toList, "BBK".toList, "AAK".toList]
+
+/-- targets AAK (1), BBK (5); decoys AKA (anagram of AAK, 2), KBB twice (3, 7: one decoy sequence),
+DCK (anagram of CDK, 4), KWW (no target of that composition: unpaired, dropped) -/
+def exRowsT : List (Row Rat) :=
+  [⟨true, "AAK".toList, 1⟩, ⟨false, "K.AKA.-".toList, 2⟩, ⟨true, "BBK".toList, 5⟩, ⟨false, "KBB".toList, 3⟩,
+   ⟨false, "KB[+1]B".toList, 7⟩, ⟨false, "DCK".toList, 4⟩, ⟨false, "KWW".toList, 0⟩]
+
+-- hypotheses of `C15_target_only_counterpart` / `C15_pairing_never_key_error` hold for this input
+example : exShuffled.Perm (exPT.peptideMap.map Prod.fst) ∧ (exPT.peptideMap.map Prod.fst).Nodup ∧
+    exShuffled.Perm (pairingTargets exPT) := by decide
+#guard (pairingTargets exPT).map String.ofList == ["AAK", "BBK", "CDK"]
+#guard (decoySeqs exRowsT).map String.ofList == ["AKA", "KBB", "DCK", "KWW"]
+#guard (pairing exShuffled exRowsT).map (fun x => (String.ofList x.1, String.ofList x.2))
+    == [("AKA", "AAK"), ("KBB", "BBK"), ("DCK", "CDK")]
+#guard (candidates exPT (pairing exShuffled exRowsT) exRowsT).toOption.map List.length == some 6
+-- pair P1: target AAK (1), mirrored decoys AKA (2) and DCK (4) -> decoy_P1 wins with DCK;
+-- pair "P2, P3": target BBK (5), mirrored decoy KBB (3, 7) -> the modified decoy peptide wins
+#guard (pickedFull leQ exPT exShuffled exRowsT).toOption.map (fun es => es.map (fun e => (String.ofList e.group, String.ofList e.peptide, String.ofList e.stripped, e.score, e.target)))
+    == some [("decoy_P1", "DCK", "DCK", 4, false), ("decoy_P2, decoy_P3", "KB[+1]B", "KBB", 7, false)]
+-- hypotheses of `C15_same_key_iff_same_residues` / `C15_match_decoy_complete`
+example : (∀ c ∈ "AKA".toList, c.isUpper = true) ∧ "AAK".toList.Perm "AKA".toList ∧
+    (decoySeqs exRowsT).Nodup ∧ "KWW".toList ∈ decoySeqs exRowsT ∧
+    "KWW".toList ∉ (pairing exShuffled exRowsT).map Prod.fst := by decide
+-- composition keys outside the upper-case domain are compared as the code compares them
+#guard String.ofList (decoyComp "BA1".toList) == "A1B" && String.ofList (targetComp "BA1".toList) == "1AB"
+
+-- `C15_lower_is_better`: the hypothesis on the negation holds for rational scores
+example : ∀ a b : Rat, leQ (-a) (-b) = leQ b a := by
+  intro a b; simp only [leQ]; congr 1; exact propext Rat.neg_le_neg_iff
+#guard (candidates exP [] (orient (fun (x : Rat) => -x) false exRows)).toOption.map List.length == some 5
+-- lower is better: pair P1 is now won by the target row with the *lowest* score (1), reported as -1
+#guard (picked leQ exP [] (orient (fun (x : Rat) => -x) false exRows)).toOption.map (fun es => es.map (fun e => (String.ofList e.group, String.ofList e.peptide, e.score)))
+    == some [("P1", "K.AAK.B", -1), ("decoy_P2, decoy_P3", "KB[+1.5]B", -3)]
+-- `C15_protein_files`: targets.proteins / decoys.proteins of the example, q-values over all four entries
+#guard ((picked leQ exP [] ([⟨false, "KAA".toList, 9⟩] ++ exRows)).toOption.map (fun es =>
+      let f := proteinFiles (tdc leQ) true (es.mergeSort (fun a b => leQ b.score a.score))
+      (f.1.map (fun x => (String.ofList x.1.group, x.2)), (f.2.getD []).map (fun x => (String.ofList x.1.group, x.2)))))
+    == some ([("P2, P3", 1)], [("decoy_P1", 1)])
+#guard ((picked leQ exP [] ([⟨false, "KAA".toList, 9⟩] ++ exRows)).toOption.map (fun es =>
+      (proteinFiles (tdc leQ) false (es.mergeSort (fun a b => leQ b.score a.score))).2.isNone)) == some true
 
 /-- a concrete well-formed annotated peptide for `C15_strip_spec`: `K.n[+42.01]PEPmT(ph.os)K.-` -/
 def exToks : List Tok :=
